@@ -78,6 +78,8 @@ pub(crate) fn syscommand_runner(
 )
 {
     let idx = **world.resource::<SyscommandCounter>();
+    #[cfg(ukoehb_bevy_cobweb_verif)]
+    crate::verif::trace(crate::verif::RunnerEv::Enter(*command, idx));
 
     // cleanup
     garbage_collect_entities(world);
@@ -88,6 +90,8 @@ pub(crate) fn syscommand_runner(
     let Ok(mut entity_mut) = world.get_entity_mut(*command)
     else
     {
+        #[cfg(ukoehb_bevy_cobweb_verif)]
+        crate::verif::trace(crate::verif::RunnerEv::Abort(*command));
         cleanup_on_abort(world, setup, cleanup);
         return
     };
@@ -95,6 +99,8 @@ pub(crate) fn syscommand_runner(
     else
     {
         tracing::error!(?command, "system command component is missing on extract");
+        #[cfg(ukoehb_bevy_cobweb_verif)]
+        crate::verif::trace(crate::verif::RunnerEv::Abort(*command));
         cleanup_on_abort(world, setup, cleanup);
         return
     };
@@ -104,9 +110,13 @@ pub(crate) fn syscommand_runner(
         // Cache the callback unless at the bottom of the pile.
         if idx == 0 {
             tracing::warn!(?command, "system command missing");
+            #[cfg(ukoehb_bevy_cobweb_verif)]
+            crate::verif::trace(crate::verif::RunnerEv::Abort(*command));
             cleanup_on_abort(world, setup, cleanup);
         } else {
             tracing::debug!(?command, "deferring suspected recursive system command");
+            #[cfg(ukoehb_bevy_cobweb_verif)]
+            crate::verif::trace(crate::verif::RunnerEv::Postpone(*command));
             world.resource_mut::<CobwebCommandQueue<BufferedSyscommand>>().push(
                 BufferedSyscommand{ command, setup, cleanup }
             );
@@ -116,6 +126,8 @@ pub(crate) fn syscommand_runner(
     };
 
     // run the system command
+    #[cfg(ukoehb_bevy_cobweb_verif)]
+    crate::verif::trace(crate::verif::RunnerEv::Run(*command));
     **world.resource_mut::<SyscommandCounter>() += 1;
     setup.run(world);
     callback.run(world, cleanup);
@@ -177,9 +189,13 @@ pub(crate) fn syscommand_runner(
     {
         while let Some(to_discard) = world.resource_mut::<CobwebCommandQueue<BufferedSyscommand>>().pop_front() {
             tracing::warn!(?to_discard.command, "failed to run missing system command");
+            #[cfg(ukoehb_bevy_cobweb_verif)]
+            crate::verif::trace(crate::verif::RunnerEv::Discard(*to_discard.command));
             cleanup_on_abort(world, to_discard.setup, to_discard.cleanup);
         }
 
+        #[cfg(ukoehb_bevy_cobweb_verif)]
+        crate::verif::trace(crate::verif::RunnerEv::RootExit(*command));
         // Reset the counter since we are exiting the system command tree.
         **world.resource_mut::<SyscommandCounter>() = 0;
     }
